@@ -1695,12 +1695,15 @@ Error query_rw_info(Arch arch, const BaseInst& inst, const Operand_* operands, s
           out->_operands[0].reset(W, size0);
           out->_operands[1].reset(R, size1);
 
-          if (inst_rm_info.rm_ops_mask & 0x1) {
+          // Embedded rounding / SAE only exist in the register form (with a memory operand EVEX.b means broadcast).
+          const bool rm_possible = !inst.has_option(InstOptions::kX86_ER | InstOptions::kX86_SAE);
+
+          if (rm_possible && (inst_rm_info.rm_ops_mask & 0x1)) {
             out->_operands[0].add_op_flags(RegM);
             out->_operands[0].set_rm_size(size0);
           }
 
-          if (inst_rm_info.rm_ops_mask & 0x2) {
+          if (rm_possible && (inst_rm_info.rm_ops_mask & 0x2)) {
             out->_operands[1].add_op_flags(RegM);
             out->_operands[1].set_rm_size(size1);
           }
@@ -1785,12 +1788,15 @@ Error query_rw_info(Arch arch, const BaseInst& inst, const Operand_* operands, s
         }
 
         if (operands[0].is_reg() && operands[1].is_reg()) {
-          if (inst_rm_info.rm_ops_mask & 0x1) {
+          // Embedded rounding / SAE only exist in the register form (with a memory operand EVEX.b means broadcast).
+          const bool rm_possible = !inst.has_option(InstOptions::kX86_ER | InstOptions::kX86_SAE);
+
+          if (rm_possible && (inst_rm_info.rm_ops_mask & 0x1)) {
             out->_operands[0].add_op_flags(RegM);
             out->_operands[0].set_rm_size(size0);
           }
 
-          if (inst_rm_info.rm_ops_mask & 0x2) {
+          if (rm_possible && (inst_rm_info.rm_ops_mask & 0x2)) {
             out->_operands[1].add_op_flags(RegM);
             out->_operands[1].set_rm_size(size1);
           }
